@@ -4,9 +4,18 @@ R18.1 the public wrapper: length-delimited -> n unchanged, chunked -> the closed
 R18.2 constant coherence (necessary conditions of the property):
       AND_OVERHEAD = SIZE + OVERHEAD, OVERHEAD >= hexdigits(SIZE) + 4, the chunk writer's maximum chunk
       is the SIZE the formula uses.
-NOT decided: that an input of the advertised size is consumed by one write for every n, `<= n`,
-monotonicity — universally quantified arithmetic over run-time n (evaluation or a solver would be a
-different technique family).
+R18.3 the closed-form bound g(n) is analysed as a piecewise-affine function of (q, r) = (n div A, n mod A):
+      `g(n) <= n` and `g` never decreases are decided from the slopes and the break points of the pieces.
+R18.4 the chunk writer matches the schema the induction in DESIGN.md (section C18) needs, and the side
+      conditions of that induction hold for the constants found in the code:
+      room reservation R <= per-chunk overhead bound OV = literal bytes + hex digits of the maximum chunk M,
+      M + OV <= A, slope of g in q <= M, g's remainder part f(r) <= max(0, r - OV), size line printed in
+      minimal hex, the writer stops with input left over only when nothing more fits (or the room left is
+      <= OV, where g promises nothing).
+R18.5 the length-delimited writer consumes exactly min(output space, input, remaining).
+Together these imply, for every n, that an input of g(n) bytes is consumed by one write into n bytes; the
+argument is an induction on the number of chunks whose premises are the checked facts (no value of n is
+ever evaluated).
 """
 from .framework import body_loc
 from .interp import shape, tree_leaf, PathLimit, Unsupported
@@ -81,4 +90,455 @@ def rule_constants(ctx):
                   detail=sorted(ints))
 
 
-RULES = [rule_wrapper, rule_constants]
+
+# ---------------------------------------------------------------------------------------------------
+# piecewise-affine analysis of the closed form
+
+class NotAffine(Exception):
+    pass
+
+
+def _divisor(t, n_leaf, acc):
+    if t[0] != "term":
+        return
+    x = t[1]
+    if x[0] == "arith" and x[1] in ("Div", "Rem") and x[2] == n_leaf and x[3][0] == "int":
+        acc.add(x[3][1])
+        return
+    for y in x[1:]:
+        if isinstance(y, tuple) and y and y[0] in ("term", "int"):
+            _divisor(y, n_leaf, acc)
+
+
+def _split_sign(lo, hi, b, c):
+    """sub-intervals of [lo, hi] with the sign of b*r + c: [(lo, hi, nonneg)]"""
+    if b == 0:
+        return [(lo, hi, c >= 0)]
+    # root: first r with b*r + c >= 0 (b > 0) / last r with >= 0 (b < 0)
+    if b > 0:
+        r0 = -(c // b) if c % b == 0 else (-c) // b + 1      # ceil(-c / b)
+        out = []
+        if lo <= min(hi, r0 - 1):
+            out.append((lo, min(hi, r0 - 1), False))
+        if max(lo, r0) <= hi:
+            out.append((max(lo, r0), hi, True))
+        return out
+    r0 = c // (-b)                                            # floor(c / -b): last r with b*r + c >= 0
+    out = []
+    if lo <= min(hi, r0):
+        out.append((lo, min(hi, r0), True))
+    if max(lo, r0 + 1) <= hi:
+        out.append((max(lo, r0 + 1), hi, False))
+    return out
+
+
+def _pw(t, n_leaf, lo, hi):
+    """piecewise-affine value of term t for r = n mod A in [lo, hi]: [(lo, hi, a, b, c)] meaning a*q + b*r + c"""
+    if t[0] == "int":
+        return [(lo, hi, 0, 0, t[1])]
+    if t[0] != "term":
+        raise NotAffine(repr(t)[:80])
+    x = t[1]
+    if x[0] == "arith" and x[1] in ("Div", "Rem") and x[2] == n_leaf and x[3][0] == "int":
+        return [(lo, hi, 1, 0, 0)] if x[1] == "Div" else [(lo, hi, 0, 1, 0)]
+    if x[0] == "cast":
+        return _pw(("term", x[1]) if x[1] and x[1][0] not in ("term", "int") else x[1], n_leaf, lo, hi)
+    if x[0] == "arith" and x[1] in ("Add", "Sub", "Mul"):
+        op, u, v = x[1], x[2], x[3]
+    elif x[0] in ("satsub", "min", "max"):
+        op, u, v = x[0], x[1], x[2]
+    else:
+        raise NotAffine(repr(x)[:80])
+    out = []
+    for (l1, h1, a1, b1, c1) in _pw(u, n_leaf, lo, hi):
+        for (l2, h2, a2, b2, c2) in _pw(v, n_leaf, l1, h1):
+            if op == "Add":
+                out.append((l2, h2, a1 + a2, b1 + b2, c1 + c2))
+            elif op == "Sub":
+                out.append((l2, h2, a1 - a2, b1 - b2, c1 - c2))
+            elif op == "Mul":
+                if a1 == 0 and b1 == 0:
+                    out.append((l2, h2, a2 * c1, b2 * c1, c2 * c1))
+                elif a2 == 0 and b2 == 0:
+                    out.append((l2, h2, a1 * c2, b1 * c2, c1 * c2))
+                else:
+                    raise NotAffine("product of two non-constant terms")
+            else:
+                if a1 != a2:
+                    raise NotAffine("%s of terms with different slopes in q" % op)
+                for (l3, h3, nonneg) in _split_sign(l2, h2, b1 - b2, c1 - c2):
+                    if op == "satsub":
+                        out.append((l3, h3, 0, b1 - b2, c1 - c2) if nonneg else (l3, h3, 0, 0, 0))
+                    elif op == "min":
+                        out.append((l3, h3, a2, b2, c2) if nonneg else (l3, h3, a1, b1, c1))
+                    else:
+                        out.append((l3, h3, a1, b1, c1) if nonneg else (l3, h3, a2, b2, c2))
+    return out
+
+
+def formula_pieces(prog, I=None):
+    """-> (A, [(lo, hi, a, b, c)]) : on r in [lo, hi], g = a*q + b*r + c"""
+    f = prog.find("calculate_max_input")
+    I = I or mk_interp(prog)
+    n = ("term", ("in", "n"))
+    outs = I.run(f, [{(): n}], lambda st: None)
+    pieces = []
+    divs = set()
+    for o in outs:
+        if o.kind != "return":
+            raise NotAffine("the formula has a %s outcome" % o.kind)
+        _divisor(tree_leaf(o.ret), n, divs)
+        for key in o.state.facts:
+            _divisor(("term", key), n, divs)
+    if len(divs) != 1:
+        raise NotAffine("divisors of n in the formula: %s" % sorted(divs))
+    A = divs.pop()
+    REM = ("arith", "Rem", n, ("int", A))
+    for o in outs:
+        riv = ((0, A - 1),)
+        for key, v in o.state.facts.items():
+            if key == REM and v[0] == "iv":
+                riv = v[1]
+            elif v[0] == "bool" and key[0] in ("lt", "eq") and "('in', 'n')" in repr(key):
+                # comparisons must be between r and a constant (already folded into the interval of r)
+                ops = [x for x in key[1:] if x[0] == "term"]
+                if any(x[1] != REM for x in ops):
+                    raise NotAffine("path condition %s" % repr(key)[:100])
+        for lo, hi in riv:
+            lo, hi = max(lo, 0), min(hi, A - 1)
+            if lo <= hi:
+                pieces.extend(_pw(tree_leaf(o.ret), n, lo, hi))
+    pieces.sort()
+    # merge equal neighbours
+    merged = []
+    for p in pieces:
+        if merged and merged[-1][2:] == p[2:] and merged[-1][1] + 1 == p[0]:
+            merged[-1] = (merged[-1][0], p[1]) + p[2:]
+        else:
+            merged.append(p)
+    return A, merged
+
+
+def rule_formula(ctx):
+    R = "R18.3"
+    prog = ctx.prog
+    f = prog.find("calculate_max_input")
+    if not ctx.require(f, R, "entry", "calculate_max_input"):
+        return
+    try:
+        A, pieces = formula_pieces(prog)
+    except (NotAffine, PathLimit, Unsupported) as e:
+        ctx.incomplete(R, "piecewise-affine", "the closed form is not a piecewise-affine function of (n div A, n mod A): %s" % e)
+        return
+    desc = "; ".join("r in [%d,%d]: %d*q + %d*r + %d" % p for p in pieces)
+    # partition of [0, A-1]
+    cover = pieces and pieces[0][0] == 0 and pieces[-1][1] == A - 1 and all(pieces[i][1] + 1 == pieces[i + 1][0] for i in range(len(pieces) - 1))
+    ctx.check(cover, R, "pieces", "the closed form is piecewise affine in q = n div %d, r = n mod %d, the pieces partition 0..%d: %s" % (A, A, A - 1, desc), loc=body_loc(f))
+    if not cover:
+        return
+    a_all = set(p[2] for p in pieces)
+    bad = []
+    if len(a_all) != 1:
+        bad.append("the slope in q differs between pieces")
+    a = pieces[0][2]
+    # g(n) <= n = A*q + r  for all q >= 0 : a <= A and b*r + c <= r at the ends of every piece
+    if a > A:
+        bad.append("slope in q is %d > %d: g(n) > n for large n" % (a, A))
+    for lo, hi, _, b, c in pieces:
+        for r in (lo, hi):
+            if b * r + c > r:
+                bad.append("g(n) > n at n mod %d = %d" % (A, r))
+            if b * r + c < 0:
+                bad.append("g(n) underflows at n mod %d = %d" % (A, r))
+    ctx.check(not bad, R, "never-exceeds-n", "g(n) <= n for every n (slope in q %d <= %d; remainder part <= r at both ends of each affine piece)" % (a, A),
+              loc=body_loc(f), detail=bad[:4])
+    bad = []
+    for i, (lo, hi, _, b, c) in enumerate(pieces):
+        if hi > lo and b < 0:
+            bad.append("decreasing inside r in [%d,%d]" % (lo, hi))
+        if i + 1 < len(pieces):
+            lo2, _, _, b2, c2 = pieces[i + 1]
+            if b2 * lo2 + c2 < b * hi + c:
+                bad.append("drops at n mod %d = %d -> %d" % (A, hi, lo2))
+    lo0, _, _, b0, c0 = pieces[0]
+    _, hiN, _, bN, cN = pieces[-1]
+    if a + b0 * 0 + c0 < bN * hiN + cN:
+        bad.append("drops when n crosses a multiple of %d (%d -> %d)" % (A, bN * hiN + cN, a + c0))
+    ctx.check(not bad, R, "never-decreases", "g never decreases as n grows (non-negative slopes, no drop at the %d break point(s) nor at the wrap of n mod %d)" % (
+        len(pieces) - 1, A), loc=body_loc(f), detail=bad[:4])
+
+
+# ---------------------------------------------------------------------------------------------------
+# the chunk writer against the induction schema
+
+def _flatten_min(t):
+    if t[0] == "term" and t[1][0] == "min":
+        return _flatten_min(t[1][1]) + _flatten_min(t[1][2])
+    return [t]
+
+
+def _hexdigits(v):
+    return len("%x" % v)
+
+
+def rule_writer_schema(ctx):
+    R = "R18.4"
+    prog = ctx.prog
+    from .emit import emission_hook
+    wc = prog.find("write_chunk")
+    if not ctx.require(wc, R, "entry", "write_chunk"):
+        return
+    over = prog.const_int("DEFAULT_CHUNK_OVERHEAD")
+    # M: the maximum chunk the writer is called with
+    Ms = []
+    for b in prog.nonderived_bodies():
+        for bb, t in b.calls():
+            if short(callee_path(t) or "").endswith("write_chunk"):
+                a = t["args"][-1]
+                Ms.append(int(a["int"]) if "int" in a else None)
+    if not ctx.require(Ms and all(m is not None and m == Ms[0] for m in Ms), R, "max-chunk", "constant maximum chunk at the call sites of write_chunk"):
+        return
+    M = Ms[0]
+    D = _hexdigits(M)
+    I = mk_interp(prog, event_hook=emission_hook())
+    IN, USED, W = ("OBJ", "input"), ("OBJ", "used"), ("OBJ", "w")
+
+    def init(st):
+        st.write_leaf(IN, (), ("term", ("in", "input")))
+        st.write_leaf(USED, (), ("term", ("in", "used")))
+        st.write_leaf(W, (), ("term", ("in", "w")))
+    try:
+        outs = I.run(wc, [ref(IN), ref(USED), ref(W), {(): ("term", ("in", "max"))}], init)
+    except (PathLimit, Unsupported) as e:
+        ctx.incomplete(R, "interp", str(e))
+        return
+    LEN = ("term", ("len", ("in", "input")))
+    used0 = ("term", ("in", "used"))
+    bad = []
+    TW = None
+    n_succ = n_fail = n_none = 0
+    lit_total = None
+    hex_ok = None
+    for o in outs:
+        if o.kind != "return":
+            bad.append("chunk writer outcome %s" % o.kind)
+            continue
+        st = o.state
+        ret = tree_leaf(o.ret)
+        used = st.read_leaf(USED, ())
+        writes = [(k, v) for k, v in st.facts.items() if k[0] == "discr" and k[1][0] == "call" and k[1][1] in ("Write::write_fmt", "Write::write_all")]
+        failed = any(v == ("var", frozenset({"Err"})) for k, v in writes)
+        emits = [e for e in st.events if e[0] == "emit"]
+        if not emits:
+            # nothing attempted
+            n_none += 1
+            if ret != ("int", 0) or used != used0:
+                bad.append("a path that writes nothing returns %s / changes the consumed count" % shape(o.ret))
+            zero = [k for k, v in st.facts.items() if k[0] == "eq" and v == ("bool", True) and ("int", 0) in (k[1], k[2])]
+            if not zero:
+                bad.append("the writer gives up before writing for a reason other than `chunk length == 0`")
+            continue
+        if failed:
+            n_fail += 1
+            if ret != ("int", 0) or used != used0:
+                bad.append("a failed chunk write returns %s / counts input as consumed" % shape(o.ret))
+            continue
+        n_succ += 1
+        # consumed += TW
+        if not (used[0] == "term" and used[1][0] == "arith" and used[1][1] == "Add" and used[1][2] == used0):
+            bad.append("after a successful chunk the consumed count is %s" % repr(used)[:120])
+            continue
+        tw = used[1][3]
+        TW = tw
+        # emission: size line (hex of tw) + CRLF, raw input[..tw], CRLF
+        pieces = [p for e in emits for p in e[1]]
+        lits = sum(len(p[1]) for p in pieces if p[0] == "lit")
+        args = [p for p in pieces if p[0] == "arg"]
+        raws = [p for p in pieces if p[0] == "raw"]
+        lit_total = lits
+        if len(args) != 1 or args[0][2] != tw:
+            bad.append("the size line does not print the chunk length (args: %s)" % [repr(a[2])[:60] for a in args])
+        else:
+            tr, opts = args[0][1], args[0][3] or {"flags": set(), "width": None}
+            fl = opts.get("flags", set())
+            is_hex = tr in ("lower_hex", "upper_hex") or (tr == "debug" and fl & {"debug_lower_hex", "debug_upper_hex"})
+            minimal = "alternate" not in fl and "sign_plus" not in fl and (opts.get("width") or 0) <= 1 and not opts.get("width_indirect")
+            hex_ok = bool(is_hex and minimal)
+            if not is_hex:
+                bad.append("the size line is not hexadecimal (trait %s, flags %s)" % (tr, sorted(fl)))
+            elif not minimal:
+                bad.append("the size line is padded or prefixed (flags %s, width %s): more than %d digits" % (sorted(fl), opts.get("width"), D))
+        if len(raws) != 1 or raws[0][2] not in (tw, None) or not ("'slice'" in repr(raws[0][1]) and "('in', 'input')" in repr(raws[0][1]) and "'start'" not in repr(raws[0][1])):
+            bad.append("the chunk data is not input[..chunk length]")
+        elif "('f', 'end'),), %s" % repr(tw)[:40] not in repr(raws[0][1]):
+            bad.append("the chunk data is not input[..chunk length]")
+        # continuation: `more input left`, nothing else -- unless the extra stop condition implies room <= OV
+        want = ("term", ("lt", tw, LEN))
+
+        def room_small(stx):
+            rooms = set()
+            for k in list(stx.facts):
+                for x in ((k,) + tuple(k[1:]) if k[0] in ("lt", "eq") else (k,)):
+                    if isinstance(x, tuple) and x and x[0] == "term":
+                        x = x[1]
+                    if isinstance(x, tuple) and x and x[0] == "arith" and x[1] == "Sub" and "Cursor::<T>::position" in repr(x[3]) and "'len'" in repr(x[2]):
+                        rooms.add(("term", x))
+            return any(I.decide_le(stx, rm, ("int", (lit_total or 0) + D)) for rm in rooms)
+        STOP = ("after a successful chunk the writer stops although input remains and room beyond the per-chunk overhead may be left "
+                "(the loop ends with input unconsumed that the advertised maximum counts on)")
+        more = I.decide(st, ("lt", tw, LEN))
+        if ret == want:
+            pass
+        elif ret == ("int", 1):
+            if more is not True:
+                bad.append("the writer asks to be called again although the input may be exhausted")
+        elif ret == ("int", 0):
+            # input remains: only acceptable when provably no room is left that the formula counts on
+            if more is not False and not room_small(st):
+                bad.append(STOP)
+        elif ret[0] == "term" and more is True:
+            # an extra condition decides: when it says stop, the room left must be within the overhead bound
+            st2 = st.clone()
+            if I.assume(st2, ret[1], False) and not room_small(st2):
+                bad.append(STOP)
+        else:
+            bad.append("continuation is %s, expected `input length > chunk length`" % repr(ret)[:160])
+    # shape of TW
+    R_res = None
+    if TW is not None:
+        leaves = _flatten_min(TW)
+        rest = [l for l in leaves if l not in (("term", ("in", "max")), LEN)]
+        if ("term", ("in", "max")) not in leaves:
+            bad.append("the chunk length is not bounded by the maximum chunk")
+        if LEN not in leaves:
+            bad.append("the chunk length is not bounded by the input length")
+        if len(rest) != 1:
+            bad.append("the chunk length has %d bounds besides input length and maximum chunk (expected exactly the output room)" % len(rest))
+        else:
+            rm = rest[0]
+            if rm[0] == "term" and rm[1][0] == "satsub" and rm[1][2][0] == "int" and "Cursor::<T>::position" in repr(rm[1][1]):
+                R_res = rm[1][2][1]
+            elif rm[0] == "term" and "Cursor::<T>::position" in repr(rm) and rm[1][0] == "arith" and rm[1][1] == "Sub" and "'len'" in repr(rm[1][2]):
+                R_res = 0
+            else:
+                bad.append("the room bound of the chunk length is %s (expected output room minus a constant reserve)" % repr(rm)[:140])
+    ctx.check(n_succ >= 1 and n_fail >= 1 and n_none >= 1 and not bad, R, "writer-shape",
+              "chunk writer: length = min(input, maximum chunk, room - reserve); nothing written when 0; on success consumed += length, emits "
+              "hex(length) CRLF input[..length] CRLF and continues exactly while input remains; on failure nothing is counted "
+              "(%d success / %d failure / %d nothing-to-write paths)" % (n_succ, n_fail, n_none), loc=body_loc(wc), detail=sorted(set(bad))[:6])
+    if TW is None or R_res is None or lit_total is None or not hex_ok:
+        ctx.incomplete(R, "side-conditions", "the writer does not match the schema, the side conditions of the induction cannot be instantiated") if not bad else None
+        return
+    OV = lit_total + D
+    try:
+        A, pieces = formula_pieces(prog)
+    except (NotAffine, PathLimit, Unsupported) as e:
+        ctx.incomplete(R, "piecewise-affine", str(e))
+        return
+    a = pieces[0][2]
+    sc = []
+    if R_res > OV:
+        sc.append("S5: the room reserve %d exceeds the per-chunk overhead bound %d: an input that fits is cut short" % (R_res, OV))
+    if M + OV > A:
+        sc.append("S1: a full chunk takes up to %d + %d bytes of output but the formula counts %d per full chunk" % (M, OV, A))
+    if a > M:
+        sc.append("S2: the formula promises %d input bytes per %d output bytes, the writer moves at most %d per chunk" % (a, A, M))
+    if any(p[2] != a for p in pieces):
+        sc.append("the slope in q differs between pieces")
+    for lo, hi, _, b, c in pieces:
+        # f(r) = b*r + c <= max(0, r - OV) on [lo, hi]
+        segs = []
+        if lo <= min(hi, OV):
+            segs.append((lo, min(hi, OV), 0, 0))
+        if max(lo, OV) <= hi:
+            segs.append((max(lo, OV), hi, 1, -OV))
+        for s_lo, s_hi, gb, gc in segs:
+            for r in (s_lo, s_hi):
+                if b * r + c > gb * r + gc:
+                    sc.append("S3: with %d bytes of room past the full chunks the formula promises %d input bytes, but at most %d fit "
+                              "(chunk overhead up to %d)" % (r, b * r + c, max(0, r - OV), OV))
+                    break
+    ctx.check(not sc, R, "induction-side-conditions",
+              "side conditions of the induction hold: reserve %d <= overhead bound %d = %d literal bytes + %d hex digits of %d; "
+              "%d + %d <= %d; slope %d <= %d; remainder promise <= max(0, r - %d) on every affine piece" % (
+                  R_res, OV, lit_total, D, M, M, OV, A, a, M, OV), loc=body_loc(wc), detail=sorted(set(sc))[:5])
+    # the loop around the writer: left only through the writer's own `false`
+    bw = prog.find("BodyWriter::write")
+    if ctx.require(bw, R, "loop-entry", "BodyWriter::write"):
+        succ = bw.succ_map()
+        callbb = [bb for bb, t in bw.calls() if short(callee_path(t) or "").endswith("write_chunk")]
+        okloop = False
+        detail = []
+        if len(callbb) == 1:
+            cb = callbb[0]
+            # blocks on a cycle through cb
+            def reach(src):
+                seen, work = set(), [src]
+                while work:
+                    x = work.pop()
+                    for y in succ[x]:
+                        if y not in seen:
+                            seen.add(y)
+                            work.append(y)
+                return seen
+            fwd = reach(cb)
+            cyc = set(x for x in fwd if cb in reach(x)) | ({cb} if cb in fwd else set())
+            exits = [(x, y) for x in cyc for y in succ[x] if y not in cyc]
+            sw = [x for x, y in exits if bw.term(x)["k"] == "switch"]
+            okloop = bool(cyc) and len(exits) == 1 and len(sw) == 1
+            detail = ["cycle blocks %s, exits %s" % (sorted(cyc), exits)]
+            if okloop:
+                # the switch is on the call's return value
+                t = bw.term(sw[0])
+                dest = (bw.term(cb).get("dest") or bw.term(cb).get("destination") or {}).get("local")
+                d = t.get("discr", {})
+                pl = d.get("place", {}).get("local") if isinstance(d, dict) else None
+                okloop = pl == dest and dest is not None
+                detail.append("switch on local %s, call destination %s" % (pl, dest))
+        ctx.check(okloop, R, "chunk-loop", "the chunk loop is left only through the writer's own `false` (no other exit, no extra condition)",
+                  loc=body_loc(bw), detail=detail)
+
+
+def rule_sized_exact(ctx):
+    R = "R18.5"
+    prog = ctx.prog
+    from .rules_bodies import _writer_state, CALL, IN, OUT
+    wr = prog.find("Call::<WithBody, B>::write")
+    if not ctx.require(wr, R, "entry", "Call::<WithBody, B>::write"):
+        return
+    I = mk_interp(prog)
+    try:
+        outs = I.run(wr, [ref(CALL), ref(IN), ref(OUT)], lambda st: _writer_state(st, ended=0))
+    except (PathLimit, Unsupported) as e:
+        ctx.incomplete(R, "interp", str(e))
+        return
+    bad = []
+    n = 0
+    for o in outs:
+        if o.kind != "return" or not shape(o.ret).startswith("Ok("):
+            continue
+        n += 1
+        c = o.ret.get((("v", "Ok"), ("f", "0"), ("f", "0")))
+        leaves = _flatten_min(c)
+        kinds = set()
+        for l in leaves:
+            rp = repr(l)
+            if l == ("term", ("len", ("in", "input"))):
+                kinds.add("input")
+            elif "('in', 'left')" in rp and "'satsub'" not in rp and "'Sub'" not in rp:
+                kinds.add("remaining")
+            elif l[0] == "term" and l[1][0] == "arith" and l[1][1] == "Sub" and ("'len'" in repr(l[1][2])) and ("position" in repr(l[1][3]) or "len" in repr(l[1][3])) and "('in', 'output')" in rp:
+                kinds.add("room")
+            elif l[0] == "term" and l[1][0] == "len" and "('in', 'output')" in rp:
+                kinds.add("room")
+            elif l[0] == "int" and l[1] >= (1 << 64) - 1:
+                pass
+            else:
+                kinds.add("other:" + rp[:100])
+        if kinds != {"input", "remaining", "room"}:
+            bad.append("consumed = min over %s" % sorted(kinds))
+    ctx.check(n >= 1 and not bad, R, "sized-exact", "a length-delimited write consumes exactly min(output room, input length, remaining length): "
+              "no reserve is held back, so n bytes of input fill n bytes of output", loc=body_loc(prog.find("BodyWriter::write") or wr), detail=sorted(set(bad))[:4])
+
+
+RULES = [rule_wrapper, rule_constants, rule_formula, rule_writer_schema, rule_sized_exact]
